@@ -2269,6 +2269,54 @@ class inplace_sequences:
                     yield {"chunks": ch, "op": op, "touch": touch}
 
 
+@contract("dask_array/slicing/_setitem.py::setitem_array_expr", spec="mixed-keys-nd", props=["C11"])
+class setitem_mixed_keys_nd:
+    """x[key] = value on 2-D / 3-D arrays with keys that mix integers with a 1-D list / boolean index and with reversed or
+    strided slices, and values that are arrays (not broadcast scalars): x computes NumPy's result of the same assignment
+    (an integer index takes no place in the value's shape, so positions in the key and in the value differ)"""
+    bounded_only = True
+    params = {"shape": "const", "chunks": "const", "key": "const", "scalar": "const"}
+    scope = "3x6 and 3x4x6 arrays, 2 layouts each; 16 key patterns; array-valued and scalar values"
+
+    def real():
+        return lambda: None
+
+    def call(fn, shape, chunks, key, scalar):
+        import numpy as np
+        import dask_array as da
+        a = np.arange(float(np.prod(shape))).reshape(shape)
+        k = tuple(np.array(t[1]) if isinstance(t, tuple) and t and t[0] == "arr" else t for t in key)
+        want = a.copy()
+        val = -1.0 if scalar else np.arange(float(want[k].size)).reshape(want[k].shape) + 100
+        want[k] = val
+        x = da.from_array(a.copy(), chunks=chunks)
+        x[k] = val
+        return np.asarray(x.compute()), want
+
+    def requires(shape, chunks, key, scalar):
+        return True
+
+    def ensures(result, shape, chunks, key, scalar):
+        got, want = result
+        return {"values-equal-numpy-assignment": _same(got, want)}
+
+    def domain(tier, rng):
+        L, B = ("arr", [1, 4]), ("arr", [True, False, True, False, False, True])
+        k2 = [(0, L), (0, B), (2, slice(None, None, -2)), (slice(None, None, -1), slice(None, None, -2)), (slice(None), L),
+              (("arr", [2, 0]), slice(1, 5)), (1, slice(1, None, 3)), (slice(None), slice(4, None, -3))]
+        k3 = [(slice(None), 2, ("arr", [3, 0])), (1, ("arr", [3, 0]), slice(None, None, -2)), (1, 2, ("arr", [3, 0, 5])),
+              (slice(None, None, -1), 1, slice(None, None, -2)), (1, slice(None), slice(None, None, -2)),
+              (slice(0, 2), ("arr", [3, 0]), 4), (slice(None), 1, slice(0, None, 4)), (2, slice(None, None, -1), 3)]
+        for chunks in ((2, 3), (3, 2)):
+            for key in k2:
+                for sc in (False, True):
+                    yield {"shape": (3, 6), "chunks": chunks, "key": key, "scalar": sc}
+        for chunks in ((2, 2, 3), (1, 4, 2)):
+            for key in k3:
+                for sc in (False, True):
+                    yield {"shape": (3, 4, 6), "chunks": chunks, "key": key, "scalar": sc}
+
+
 @contract("dask_array/_blockwise.py::Blockwise._accept_slice", spec="block-function-not-pointwise", props=["C02"])
 class slice_through_user_block_function:
     """a slice or take above map_blocks / blockwise with a user function selects the same elements whether or not it is
